@@ -2,6 +2,7 @@
 from harness import gen_tables, framegen
 
 GREASE2 = [0x0a0a + 0x1010 * i for i in range(16)]
+GREASE1 = [0x0b, 0x2a, 0x49, 0x68, 0x87, 0xa6, 0xc5, 0xe4]   # RFC 8701 one-byte values (PskKeyExchangeModes): not GREASE in a two-byte field
 
 
 def codes_of(factory):
@@ -21,7 +22,7 @@ def rnd_codes(rng, known, width, n, grease=True, unknown=True):
             # neighbours of GREASE values
             g = rng.choice(GREASE2)
             out.append(rng.choice([(g & 0xff00) | (rng.choice(GREASE2) & 0xff), g ^ 0x0100, g ^ 0x0001, (g + 1) & 0xffff, g - 1,
-                                   g & 0xff00, g & 0x00ff, (g & 0xff00) | 0x0b]))
+                                   g & 0xff00, g & 0x00ff, (g & 0xff00) | 0x0b, rng.choice(GREASE1)]))
         elif unknown:
             out.append(rng.randrange(256 ** width))
         else:
@@ -54,11 +55,11 @@ def ext_payload(rng, impl, kind):
     raise KeyError(kind)
 
 
-def client_hello(rng, impl, scsv_at_end=True, no_dup=True):
+def client_hello(rng, impl, scsv_at_end=True, no_dup=True, scsv=None):
     """fields of a client hello as the chenc command takes them, plus the list of extenc commands used"""
     suites = rnd_codes(rng, codes_of('TlsCipherSuiteFactory'), 2, rng.choice([1, 2, 5, 17, 40]))
     suites = [c for c in suites if c not in (0x5600, 0x00ff)] or [0xc02f]
-    scsv = [c for c in (0x5600, 0x00ff) if rng.random() < 0.4]
+    scsv = [c for c in (0x5600, 0x00ff) if rng.random() < 0.4] if scsv is None else list(scsv)
     if scsv_at_end:
         suites = suites + scsv
     else:
